@@ -193,6 +193,47 @@ def check(ctx):
                       "alternatives are folded into one `type` list although some carry other keywords (which would be dropped: the schema accepts more than the union)", vu, d, detail="only when every alternative is {type: ...}")
     ctx.check(n_sites >= 2, "C06.R6", f"{vu.qualname}:sites", vu.node.body[0], "the folding sites of _visited_union were not recognised", vu, vu.node, nontrivial=False)
 
+    # ---------------- R7: keyword filter of json_schema()
+    ctx.rule("C06.R7", "json_schema() drops a keyword only by comparing its value with the parameter's default: never by truthiness / emptiness / type of the value (const=\"\", enum=[], default=0 are meaningful)", floor=2)
+    keyword_filter_rule(ctx)
+
+
+def keyword_filter_rule(ctx):
+    model = ctx.model
+    w = model.func("apischema.json_schema.types.json_schema_kwargs.<locals>.wrapper")
+    gens = [g for g in ast.walk(w.node) if isinstance(g, ast.comprehension) and isinstance(g.iter, ast.Call) and norm(g.iter.func) == "kwargs.items"]
+    ctx.require(len(gens) == 1 and isinstance(gens[0].target, ast.Tuple) and len(gens[0].target.elts) == 2, "json_schema_kwargs: the (k, v) filter over kwargs.items() was not found")
+    vname = norm(gens[0].target.elts[1])
+
+    def uses(fn_node, var, exprs, fi, depth=0):
+        """classify every read of `var` inside exprs"""
+        parents = {c: p for e in exprs for p in ast.walk(e) for c in ast.iter_child_nodes(p)}
+        for e in exprs:
+            for n in ast.walk(e):
+                if not (isinstance(n, ast.Name) and n.id == var and isinstance(n.ctx, ast.Load)):
+                    continue
+                p = parents.get(n)
+                ok, why = False, f"`{var}` is used as `{short(p, 50) if p is not None else var}`"
+                if isinstance(p, ast.Compare) and len(p.ops) == 1:
+                    other = p.comparators[0] if p.left is n else p.left
+                    if isinstance(p.ops[0], (ast.Eq, ast.NotEq)) and ("default" in norm(other)):
+                        ok = True
+                    elif isinstance(p.ops[0], (ast.In, ast.NotIn)) and p.left is n and isinstance(other, ast.Tuple):
+                        ok = True
+                elif isinstance(p, ast.Call) and n in p.args and depth < 2:
+                    q = model.resolve_name(fi.module, dotted(p.func) or "")
+                    callee = model.functions.get(q) if q else None
+                    if callee is not None:
+                        idx = p.args.index(n)
+                        if idx < len(callee.params):
+                            body = [st for st in callee.node.body]
+                            uses(callee.node, callee.params[idx], body, callee, depth + 1)
+                            continue
+                ctx.check(ok, "C06.R7", f"{fi.qualname}:{var}", p if p is not None else n,
+                          f"{why}: the decision to drop a keyword must only compare the value with the parameter default", fi, n, detail="== / != default, or membership in a literal tuple")
+
+    uses(w.node, vname, list(gens[0].ifs), w)
+
 
 def mutants(mb):
     M = "apischema/deserialization/methods.py"
@@ -210,6 +251,7 @@ def mutants(mb):
     mb.add_text("method-requiring-helper", D, "            for f, reqs in get_dependent_required(cls).items():\n                if f not in alias_by_name:  # field skipped for deserialization\n                    continue\n                for req in reqs:\n                    requiring[req].add(alias_by_name[f])\n", "", "C06.R5", "dependentRequired")
     mb.add_text("nullable-merge-keeps-const", J, "            and not any(\"const\" in res or \"enum\" in res for res in results)\n", "", "C06.R6", "nullable-merge")
     mb.add_text("type-list-drops-keywords", J, "        elif all(alt.keys() == {\"type\"} for alt in results):", "        elif all(\"type\" in alt for alt in results):", "C06.R6", "type-list")
+    mb.add_text("keyword-filter-emptiness", "apischema/json_schema/types.py", "                v != _json_schema_params[k].default\n", "                (v != _json_schema_params[k].default and bool(v))\n", "C06.R7", "wrapper")
     mb.add_text("aggregate-order", J, "            if field.flattened:\n                self._object_schema(cls, field)  # check the field is an object", "            if False:\n                self._object_schema(cls, field)  # check the field is an object", "C06.R5", "aggregate")
     mb.add_text("mapping-any-keys", J, "        if \"type\" not in key or key[\"type\"] != JsonType.STRING:\n            raise ValueError(\"Mapping types must have string-convertible keys\")\n", "", "C06.R4", "mapping")
     mb.add_text("schema-hook-missing", J, "    def any(self) -> JsonSchema:\n        return JsonSchema()\n", "", "C06.R1", "any")
